@@ -551,7 +551,54 @@ func (m *Machine) fsIntrinsic(name string, args []Val) (Val, bool) {
 			err = m.ioErr("EOF")
 		}
 		return Tuple{goInt(n), err}, true
-	case "(*os.File).Read", "(*os.File).Seek", "(*os.File).WriteAt", "(*os.File).Truncate":
+	case "(*os.File).Seek":
+		// the descriptor's offset is state shared by everybody using the descriptor
+		f := args[0].(*fileObj)
+		if f.frozen {
+			m.sharedWrite(f, m.callPos)
+		}
+		m.step(false, "seek "+fileClass(f.name))
+		if f.closed {
+			return Tuple{cInt(0, 64, true), mkErr("closed", "seek "+f.name+": file already closed")}, true
+		}
+		off := m.cInt(args[1], "Seek offset")
+		switch m.cInt(args[2], "Seek whence") {
+		case 0:
+			f.off = off
+		case 1:
+			f.off += off
+		case 2:
+			f.off = f.ino.n + off
+		}
+		if f.off < 0 {
+			f.off = 0
+			return Tuple{cInt(0, 64, true), mkErr("invalid", "seek: negative position")}, true
+		}
+		return Tuple{cInt(uint64(f.off), 64, true), nil}, true
+	case "(*os.File).Read":
+		f := args[0].(*fileObj)
+		if f.frozen {
+			m.sharedWrite(f, m.callPos)
+		}
+		m.step(false, "read "+fileClass(f.name))
+		if f.closed {
+			return Tuple{goInt(0), mkErr("closed", "read "+f.name+": file already closed")}, true
+		}
+		dst := args[1].(Slice)
+		n := 0
+		if f.off < f.ino.n {
+			n = f.ino.n - f.off
+			if dst.len < n {
+				n = dst.len
+			}
+			copyRange(dst.arr, dst.off, f.ino.data, f.off, n)
+		}
+		f.off += n
+		if n == 0 && dst.len > 0 {
+			return Tuple{goInt(0), m.ioErr("EOF")}, true
+		}
+		return Tuple{goInt(n), nil}, true
+	case "(*os.File).WriteAt", "(*os.File).Truncate":
 		f, _ := args[0].(*fileObj)
 		if f != nil && f.frozen {
 			m.sharedWrite(f, m.callPos)
